@@ -205,6 +205,8 @@ def sensitivity(pids, base_seed, only=None):
             old = {}
     for r in results:
         old[(r['property'], r['mutant'])] = r
+    current = set((pid, name) for pid, name, _, _, _ in mutants.MUTANTS)
+    old = dict((k, v) for k, v in old.items() if k in current)        # (entries of withdrawn mutants are dropped)
     with open(path, 'w') as f:
         json.dump({'results': sorted(old.values(), key=lambda r: (r['property'], r['mutant']))}, f, indent=1)
         f.write('\n')
